@@ -40,6 +40,19 @@ fn shaped(bits: usize) -> BoxedStrategy<Vec<u64>> {
     .boxed()
 }
 
+/// all pairs of values whose limbs come from a small alphabet (complete enumeration)
+fn enum_alphabet_pairs(bits: usize, f: &mut dyn FnMut(&Case) -> R) -> R {
+    let alpha: &[u64] = if nlimbs(bits) <= 3 { &LIMB_ALPHABET8 } else { &LIMB_ALPHABET5 };
+    let vals = alphabet_values(bits, alpha);
+    for la in &vals {
+        for lb in &vals {
+            let (la, lb) = (la.clone(), lb.clone());
+            f(&Case::new().l(la.clone()).l(lb).l(la).n(9))?;
+        }
+    }
+    Ok(())
+}
+
 fn strat(bits: usize) -> BoxedStrategy<Case> {
     let n = nlimbs(bits);
     if bits == 0 {
@@ -233,7 +246,7 @@ macro_rules! reg_wide {
 fn main() {
     let spec = PropSpec {
         id: "C02",
-        rule_text: "operand pairs per width from 4 generator classes (independent values with prescribed zero-limb shapes: zero low / high / middle limbs, single bits, 2^k+-1, boundary alphabet; boundary products 2^i * (2^(BITS-i)+{-1,0,1}); a*b within +-1 of 2^BITS by construction b=floor|ceil((2^BITS+d)/a); (MAX/k)*k) plus extra values for iterator products (slice, copied, filter, from_fn, chain, into_iter, rev iterators); * through all six operator shapes; widening_mul over a grid of 24 (BITS,BITS_RHS) pairs; exhaustive enumeration of all pairs for BITS <= 8. Oracle: num-bigint a*b, mod 2^BITS, exact overflow predicate; inv_ring validity a*x = 1 mod 2^BITS with x canonical, Some iff a odd and BITS>0. Non-trivial: both operands non-zero and (an operand has a zero limb at either end or in the middle, or the product overflows, or the product is wider than one limb); distinct by (rule,width,a,b).",
+        rule_text: "operand pairs per width from 4 generator classes (independent values with prescribed zero-limb shapes: zero low / high / middle limbs, single bits, 2^k+-1, boundary alphabet; boundary products 2^i * (2^(BITS-i)+{-1,0,1}); a*b within +-1 of 2^BITS by construction b=floor|ceil((2^BITS+d)/a); (MAX/k)*k) plus extra values for iterator products (slice, copied, filter, from_fn, chain, into_iter, rev iterators); * through all six operator shapes; widening_mul over a grid of 24 (BITS,BITS_RHS) pairs; exhaustive enumeration of all pairs for BITS <= 8 and of all pairs of values whose limbs come from {0,1,2,2^63-1,2^63,2^63+1,MAX-1,MAX} (2-3 limbs) or {0,1,2^63,MAX-1,MAX} (4 limbs) at 8 widths. Oracle: num-bigint a*b, mod 2^BITS, exact overflow predicate; inv_ring validity a*x = 1 mod 2^BITS with x canonical, Some iff a odd and BITS>0. Non-trivial: both operands non-zero and (an operand has a zero limb at either end or in the middle, or the product overflows, or the product is wider than one limb); distinct by (rule,width,a,b).",
         assumptions: vec![
             "num-bigint arithmetic is correct (oracle)",
             "x86-64 little-endian target; fixed width grid and fixed (BITS,BITS_RHS) pair grid",
@@ -244,6 +257,7 @@ fn main() {
         spec,
         |jobs, _| {
             reg_enum!(jobs, "mul_all_pairs", enum_pairs, body; [0, 1, 2, 3, 4, 5, 6, 7, 8]);
+            reg_enum!(jobs, "mul_limb_alphabet", enum_alphabet_pairs, body; [65, 127, 128, 129, 190, 192, 250, 256]);
             w_all_wide!(reg_gen!(jobs, "mul", 10000, strat, body;));
             reg_wide!(jobs;
                 (0, 0), (0, 64), (64, 0), (1, 1), (1, 63), (63, 1), (63, 64), (64, 64), (64, 65), (65, 64),
